@@ -8,6 +8,7 @@ CONSTANTS
   Tolerated <- NoTol
   FnOut = FALSE
   Poller = TRUE
+  Aging = FALSE
   Gen = "off"
 INVARIANTS NoClauseViolated InvQuiescentAtRelease InvDurLagsMem
 CHECK_DEADLOCK TRUE
